@@ -541,7 +541,10 @@ theorem deregisterAllFrom_frame : ∀ (ls : List Nat) (s : St), Frame s (deregis
 theorem registerAllFrom_frame : ∀ (ls : List Nat) (s : St), Frame s (registerAllFrom s ls) := by
   intro ls; induction ls with
   | nil => intro s; exact Frame.refl s
-  | cons l ls ih => intro s; simp only [registerAllFrom]; exact Frame.trans (register_frame s l) (ih _)
+  | cons l ls ih =>
+    intro s; simp only [registerAllFrom]
+    have h1 : Frame s { s with lst := upd s.lst l { s.lst l with deadline := none } } := ⟨rfl, rfl⟩
+    exact Frame.trans (Frame.trans h1 (register_frame _ l)) (ih _)
 theorem processTimeoutFrom_frame (now : Nat) : ∀ (ls : List Nat) (s : St), Frame s (processTimeoutFrom s now ls) := by
   intro ls; induction ls with
   | nil => intro s; exact Frame.refl s
